@@ -56,6 +56,7 @@ const char* get_default_value(const char* port_name, const Ports& ports,
     // only port which indicates if they're amplitude/frequency/etc
     const char* dependent = metadata[dependent_annotation];
     const char* dependent_value = "";
+    char dependent_value_copy[16];
     char* dependent_port = nullptr;
     if(dependent)
     {
@@ -85,6 +86,13 @@ const char* get_default_value(const char* port_name, const Ports& ports,
                                 runtime, NULL, recursive-1);
 
         assert(strlen(dependent_value) < 16); // must be an int
+
+        // the runtime's reply has been printed into `buffer`, right behind
+        // the port name; `buffer` is being reused now, so keep a copy
+        strncpy(dependent_value_copy, dependent_value,
+                sizeof(dependent_value_copy) - 1);
+        dependent_value_copy[sizeof(dependent_value_copy) - 1] = 0;
+        dependent_value = dependent_value_copy;
 
         char* default_variant = buffer;
         *default_variant = 0;
